@@ -195,8 +195,8 @@ func H_C11_verify() {
 	now := vU64("now") & 0xFFFFFFFFFFFF
 	secret, req, timers := vC11Secret, append([]byte{}, c.reqMAC...), c.timers
 	same := true
-	what := vChoice("tamper", 14)
-	if c.timers && (what == 2 || what == 8 || what == 12 || what == 13) {
+	what := vChoice("tamper", 15)
+	if c.timers && (what == 2 || what == 8 || what == 12 || what == 13) && what != 14 {
 		// RFC 8945 section 5.3.1: with timers only, the key name and the error/other-data fields are not digested
 		// (the key is the one of the session); altering them is outside what the MAC can detect
 		return
@@ -212,8 +212,15 @@ func H_C11_verify() {
 	switch what {
 	case 0: // nothing altered
 	case 1: // a content octet of the message: ID (restored from OrigId, so not covered), flags, question letter, type
-		p := []int{2, 3, 13, n - 1}[vChoice("pos", 4)]
-		flip(p)
+		pi := vChoice("pos", 6)
+		p := []int{2, 3, 13, n - 1, 10, 11}[pi]
+		if pi < 4 {
+			flip(p)
+		} else { // ARCOUNT: single-bit flips (the other counts move the record boundaries into symbolic MAC octets, which
+			// multiplies the parser's paths; C02 covers the parser on arbitrary input)
+			msg[p] ^= 1 << uint(vChoice("bit", 3))
+			same = false
+		}
 	case 2: // key name letter (case-insensitive)
 		v := vU8("x8")
 		vAssume(v >= 'A' && v <= 'z' && v != '\\')
@@ -250,8 +257,13 @@ func H_C11_verify() {
 		timers, same = !timers, false
 	case 12: // CLASS of the TSIG record (a TSIG variable, RFC 8945 section 4.3.3)
 		flip(n + len(c.keyWire) + 2 + vChoice("pos", 2))
-	default: // TTL of the TSIG record
+	case 13: // TTL of the TSIG record
 		flip(n + len(c.keyWire) + 4 + vChoice("pos", 4))
+	default: // an unsigned record appended behind the TSIG, ARCOUNT raised to match
+		msg = append(msg, 0, 0, 16, 0, 1, 0, 0, 0, 0, 0, 2, 1, vU8("x8"))
+		ar := uint16(msg[10])<<8 | uint16(msg[11])
+		msg[10], msg[11] = byte((ar+1)>>8), byte(ar+1)
+		same = false
 	}
 	vReach("presented")
 	// the window is taken from the presented values (equal to the signed ones when "same"); read them before the
